@@ -502,3 +502,99 @@ Proof.
         apply in_app_or in Hx. destruct Hx as [Hx|Hx]; [|apply in_or_app; now right].
         eapply build_incl_permitted; eauto.
 Qed.
+
+(* ================= body-level corollaries under reference coherence ================= *)
+Lemma ref_coherent_incl l l' : incl l l' -> ref_coherent l' -> ref_coherent l.
+Proof. intros I C u v Hu Hv. apply C; now apply I. Qed.
+
+Lemma build_body_exact c sels need st sel : Forall sel_sound sels -> build c sels need st = BOk sel ->
+  ref_coherent (permitted c st) -> body_inputs sel = map ref_of sel.
+Proof.
+  intros Hs Hb C. apply body_inputs_exact, NoDup_map_ref.
+  - eapply build_NoDup; eauto.
+  - eapply ref_coherent_incl; [|exact C]. eapply build_incl_permitted; eauto.
+Qed.
+
+Lemma build_no_excluded_ref c sels need st sel : Forall sel_sound sels -> build c sels need st = BOk sel ->
+  ref_coherent (permitted c st ++ excluded st) ->
+  forall u, In u (excluded st) -> ~ In (ref_of u) (body_inputs sel).
+Proof.
+  intros Hs Hb C u Hu. rewrite body_inputs_In. intros [v [Hv E]].
+  assert (v = u).
+  { apply C; [apply in_or_app; left; eapply build_incl_permitted; eauto | apply in_or_app; now right | exact E]. }
+  subst. eapply build_no_excluded; eauto.
+Qed.
+
+Lemma build_frame c sels need st :
+  let st' := state_after st (build c sels need st) in
+  potential st' = potential st /\ excluded st' = excluded st /\ addrs st' = addrs st.
+Proof. cbn. destruct (build c sels need st); cbn; auto. Qed.
+
+(* all clauses at once, for a family of selector lists indexed by a random seed / stream *)
+Lemma build_all (seed : Type) (mk : seed -> list selector) :
+  (forall s, Forall sel_sound (mk s)) ->
+  forall s c need st sel, build c (mk s) need st = BOk sel ->
+    NoDup sel /\ NoDup (body_inputs sel)
+    /\ incl sel (permitted c st)
+    /\ (forall u, In u (explicit st) -> In u sel /\ In (ref_of u) (body_inputs sel))
+    /\ (forall u, In u (excluded st) -> ~ In u sel)
+    /\ StronglySorted ref_lt (body_inputs sel).
+Proof.
+  intros Hs s c need st sel Hb. specialize (Hs s).
+  split; [eapply build_NoDup; eauto|]. split; [apply body_inputs_NoDup|].
+  split; [eapply build_incl_permitted; eauto|].
+  split.
+  - intros u Hu. assert (In u sel) by (eapply build_explicit_present; eauto). split; [assumption|].
+    apply body_inputs_In. eauto.
+  - split; [eapply build_no_excluded; eauto | eapply build_sorted; eauto].
+Qed.
+
+(* ================= non-vacuity: the hypotheses are satisfiable, every outcome occurs ================= *)
+Module Examples.
+  Definition A := mkU (hx "0a00") 1 1.     (* explicit, registered twice *)
+  Definition B := mkU (hx "0a00") 0 2.     (* potential and at address 7 *)
+  Definition C := mkU (hx "9f") 10 3.      (* at address 7, excluded *)
+  Definition D := mkU (hx "a0") 2 4.       (* at address 7 *)
+  Definition cx : ctx := [(7, [B; C; D])].
+  Definition st := mkB [A; A] [B] [C] [7].
+  (* a selector that takes everything it is offered; one that always fails *)
+  Definition take_all : selector := fun pool => SelOk pool.
+  Definition failing : selector := fun _ => SelFail.
+
+  Example take_all_sound : sel_sound take_all.
+  Proof. intros pool r H. inversion H; subst. exists []. rewrite app_nil_r. apply Permutation_refl. Qed.
+  Example failing_sound : sel_sound failing.
+  Proof. intros pool r H. discriminate. Qed.
+  Example sels_sound : Forall sel_sound [failing; take_all].
+  Proof. repeat constructor; [apply failing_sound | apply take_all_sound]. Qed.
+
+  (* fallback to the second selector; A once, C excluded, '9f' < 'a0' and index 0 before 1 *)
+  Example build_ok : build cx [failing; take_all] true st = BOk [B; A; D].
+  Proof. vm_compute. reflexivity. Qed.
+  Example body_ok : body_inputs [B; A; D] = [(hx "0a00", 0); (hx "0a00", 1); (hx "a0", 2)].
+  Proof. vm_compute. reflexivity. Qed.
+  Example build_noneed : build cx [failing; take_all] false st = BOk [A].
+  Proof. vm_compute. reflexivity. Qed.
+  Example build_all_fail : build cx [failing; failing] true st = BErr ESelection.
+  Proof. vm_compute. reflexivity. Qed.
+  Example build_conflict_ex : build cx [take_all] true (bstep st (AddExcluded A)) = BErr EConflict.
+  Proof. vm_compute. reflexivity. Qed.
+  Example coherent_ex : ref_coherent (permitted cx st ++ excluded st).
+  Proof.
+    intros u v Hu Hv E. cbn in Hu, Hv.
+    repeat (destruct Hu as [<-|Hu]; [repeat (destruct Hv as [<-|Hv]; [try reflexivity; try (vm_compute in E; discriminate)|]); try contradiction|]);
+    contradiction.
+  Qed.
+  (* numeric index order, not string order: 10 after 2; hex order = byte order across the 9/a boundary *)
+  Example order_ex : sort_inputs [mkU (hx "a0") 10 0; mkU (hx "a0") 2 0; mkU (hx "9f") 300 0]
+                     = [mkU (hx "9f") 300 0; mkU (hx "a0") 2 0; mkU (hx "a0") 10 0].
+  Proof. vm_compute. reflexivity. Qed.
+  (* a history: build, register more, exclude what was spent -> refused; lift the exclusion -> built *)
+  Example history_ex :
+    snd (run cx empty_state [Op (AddInput A); Op (AddAddress 7); Build true [take_all];
+                             Op (AddExcluded D); Build true [take_all]; Op (SetExcluded []); Build false []])
+    = [BOk [B; A; C; D]; BErr EConflict; BOk [B; A; C; D]].
+  Proof. vm_compute. reflexivity. Qed.
+  Example history_sound : Forall item_sound [Op (AddInput A); Op (AddAddress 7); Build true [take_all]].
+  Proof. repeat constructor. apply take_all_sound. Qed.
+End Examples.
